@@ -286,3 +286,6 @@ def check(ctx):
     ctx.assume("spike tensors are {0,1}-valued; batch reductions behave as documented")
     # ---------------- (g) the trace kernels behind the trace monitors (shared with C07.a)
     ctx.import_clauses("C07", {"C07.a"}, "C08.g", minimum=8)
+    # ---------------- (h) reward modulation block = the documented rule, as a decision tree
+    from .. import reward_tail
+    reward_tail.check(ctx, "C08.h", only=("MSTDP", "MSTDPET"))
